@@ -75,6 +75,31 @@ def c13_3(ctx):
     fast = [s for s in ts[0].body if isinstance(s, ast.If) and any(isinstance(r, ast.Return) and N(r.value) == '%s[lb:ub]' % df for r in ast.walk(s))]
     ctx.count(1, fn.where(ts[0]))
     if not fast:
+        # no `return df[lb:ub]`: is the label slice taken at all? If it is (assigned, trimmed afterwards ...) its guard is still the question
+        pm = parent_map(fn.node)
+        for sl in [x for x in ast.walk(ts[0]) if isinstance(x, ast.Subscript) and isinstance(x.slice, ast.Slice) and U(x.value) == df and isinstance(x.ctx, ast.Load)
+                   and x.slice.lower is not None and x.slice.upper is not None and U(x.slice.lower) == 'lb' and U(x.slice.upper) == 'ub']:
+            guards, n = [], sl
+            while n is not ts[0] and n in pm:
+                p = pm[n]
+                if isinstance(p, ast.If) and p is not ts[0]:
+                    guards.append(p.test if any(n is b or n in ast.walk(b) for b in p.body) else ast.UnaryOp(ast.Not(), p.test))
+                n = p
+            atoms0 = ['l', 'u', NS('lb is None'), NS('ub is None')]
+            t_all = ast.BoolOp(ast.And(), guards) if len(guards) > 1 else (guards[0] if guards else ast.Constant(True))
+            atoms_all = atoms0 + [a for a in bool_atoms(t_all) if a not in atoms0]
+            import itertools
+            ctx.count(1, fn.where(sl))
+            for bits in itertools.product([False, True], repeat=len(atoms_all)):
+                env = dict(zip(atoms_all, bits))
+                if bool_eval(t_all, env) and not ((env['l'] or env[atoms0[2]]) and (env['u'] or env[atoms0[3]])):
+                    st = enclosing_stmt(pm, sl)
+                    trims = [x for x in ast.walk(ts[0]) if isinstance(x, ast.Subscript) and isinstance(x.value, ast.Attribute) and x.value.attr == 'iloc' and isinstance(x.slice, ast.Slice)]
+                    if trims:
+                        ctx.fail(fn, st, 'the closed-closed label slice %s[lb:ub] is taken although a bound is open (%s) and the boundary is then trimmed by position (`%s`): one row is removed, so with a repeated timestamp on the bound the other rows on it are kept' % (
+                            df, {k: v for k, v in env.items() if k in atoms0}, U(trims[0])), witness=env)
+                        return
+                    raise AnalysisError('the label slice %s[lb:ub] is evaluated although a bound may be open (%s) and its result is post-processed in a way this rule cannot judge' % (df, env))
         return     # no fast path: nothing to guard
     t = fast[0].test
     atoms = ['l', 'u', NS('lb is None'), NS('ub is None')]
